@@ -78,6 +78,8 @@ def mol(key):
             m = M(XYZ_H4, q=1, spin=1, basis="sto-3g")
         elif key == "H4t":      # triplet H4
             m = M(XYZ_H4, q=0, spin=2, basis="sto-3g")
+        elif key == "H4+q":     # quartet H4+ (three unpaired alpha electrons)
+            m = M(XYZ_H4, q=1, spin=3, basis="sto-3g")
         else:
             raise KeyError(key)
         m.solver = _CachedIntegrals(m.solver, m)
